@@ -125,10 +125,31 @@ func (x *Executor) atCallObligationsKey(fr *Frame, st *State, reach string, key,
 		pkg = fr.fn.Pkg.Pkg
 	}
 	env := &Env{x: x, u: u, vars: vars, bound: map[string]Val{}, st: st, old: x.entry, pkg: pkg, localsAfter: x.localsLookup(fr, st)}
-	// the enclosing contract's own parameter names are visible too
+	// the enclosing contract's own parameter names are visible too; outer(x) names the caller's x
+	// even when the callee has a parameter of the same name
+	outer := map[string]Val{}
+	cur := x.localsLookup(fr, st)
 	for i, n := range fr.con.Params {
-		if _, taken := vars[n]; !taken && i < len(fr.params) {
-			vars[n] = fr.params[i]
+		if i < len(fr.params) {
+			// a parameter is a local variable: its value at the call is meant (old(x) gives the
+			// entry value)
+			pv := fr.params[i]
+			if v, ok := cur(n); ok && fr.top {
+				pv = v
+			}
+			outer[n] = pv
+			if _, taken := vars[n]; !taken {
+				vars[n] = pv
+			}
+		}
+	}
+	env.outerVars = outer
+	env.entryVars = map[string]Val{}
+	for i, n := range fr.con.Params {
+		if i < len(fr.params) {
+			if _, shadowed := vars[n]; !shadowed || sameVal(vars[n], outer[n]) {
+				env.entryVars[n] = fr.params[i]
+			}
 		}
 	}
 	for _, cl := range cls {
